@@ -200,6 +200,8 @@ def loop_unit(item):
                     dict(kind="loop", spec=spec.key, instance_ids=[i for i, _, _ in g], instances=[i for _, i, _ in g], chooser=kind, bound=bound),
                     f"{spec.key}: rollout over batch {[i for i, _, _ in g]} with {kind}-feasible chooser failed: {type(e).__name__}: {str(e)[:160]}",
                 )
+                if "Timeout" in type(e).__name__:
+                    return p  # the decoding loop does not come back: no further loops are attempted on this environment
                 continue
             steps = actions.shape[-1]
             p.add(evaluations=1, transitions=steps * len(g), loops=1)
